@@ -1,5 +1,5 @@
 ----------------------------- MODULE MC_quick -----------------------------
-(* Quick tier domain of spec/BindingContext: a union of slices, about 3.5 k cases.                  *)
+(* Quick tier domain of spec/BindingContext: a union of slices, about 4.5 k cases.                  *)
 (* Seed (0..3) rotates the options of the second kubernetes binding so that different seeds cover  *)
 (* different corners; every slice is enumerated exhaustively.                                      *)
 EXTENDS BindingContext
@@ -11,14 +11,15 @@ SeedKeep == (Seed \div 2) % 2 = 0
 
 (* S1: one queued context of a kubernetes binding (Synchronization or Event), every option of the
    binding x two groupings of the second binding x 0..2 existing objects *)
-KubeSingles == [D EXCEPT !.ajq = {SeedJq}, !.akeep = {~SeedKeep}, !.agrp = {"", "g1"},
+KubeSingles == [D EXCEPT !.minc = {"none", "self", "aux", "both"},
+                         !.ajq = {SeedJq}, !.akeep = {~SeedKeep}, !.agrp = {"", "g1"},
                          !.initsA = {{}, {"a1"}, {"a1", "a2"}}, !.initsB = {{"b1"}},
-                         !.syncsels = {{}, {"main"}}, !.trigs = {"Sync", "Add", "Mod", "Del"}]
+                         !.syncsels = {{}, {"main"}, {"aux"}}, !.trigs = {"Sync", "Add", "Mod", "Del"}]
 (* S2: one context of a schedule / admission / conversion / onStartup binding, every group / include option *)
 OtherSingles == [D EXCEPT !.mjq = {"any"}, !.minc = {"none"},
                           !.ajq = {SeedJq}, !.akeep = {SeedKeep}, !.agrp = {"", "g1"},
                           !.okinds = {"schedule", "validating", "mutating", "conversion", "onStartup"},
-                          !.onamed = {TRUE, FALSE}, !.ogrp = {"", "g1", "g2"}, !.oinc = {"none", "main", "aux"},
+                          !.onamed = {TRUE, FALSE}, !.ogrp = {"", "g1", "g2"}, !.oinc = {"none", "main", "aux", "both"},
                           !.initsA = {{"a1"}}, !.initsB = {{"b1"}},
                           !.trigs = {"StartUp", "Tick", "Request"}]
 (* S3: arrays of two contexts (kubernetes + schedule mixed, Synchronization first) *)
